@@ -238,6 +238,17 @@ SCOPE_TEMPLATES = [
     ("isinstance-mro", "class A:\n    pass\nclass B(A):\n    pass\nb1 = B()\nR = (isinstance(b1, A), type(b1).__name__, issubclass(B, A), B.__mro__[1].__name__)\n"),
     ("keywords-named-like-interpreter-parameters", "def f(**kw):\n    return sorted(kw)\nclass A:\n    def m(self, **kw):\n        return sorted(kw)\nR = [f(self=1, func=2, func_name=3, ast_ctx=4), A().m(func=2, ast_ctx=4, args=5, kwargs=6)]\n"),
     ("posonly-kwargs", "def f(p, /, **kw):\n    return (p, kw)\ntry:\n    R = f(1, p=2)\nexcept TypeError:\n    R = 'TypeError'\n", "posonly-name-in-kwargs"),
+    ("lambda-kwonly-default-loop", "fs = []\nfor i in range(3):\n    fs.append(lambda *, k=T('kd', i): k * 10)\nR = [f() for f in fs]\n"),
+    ("lambda-defaults-in-function-loop", "def mk(n):\n    fs = []\n    for i in range(n):\n        fs.append(lambda a, b=T('d', i), *, k=T('kd', i + 1): (a, b, k))\n    return [f(100) for f in fs]\nR = mk(3)\nR2 = mk(2)\n"),
+    ("lambda-kwonly-default-factory", "def adder(n):\n    return lambda q, *, inc=T('inc', n): q + inc\na1 = adder(1)\na2 = adder(5)\nR = [a1(10), a2(10), a1(10, inc=2)]\n"),
+    ("comp-iter-unbound-free", "x = 5\ndef outer():\n    def inner():\n        try:\n            return [x for x in (x, 1)]\n        except NameError:\n            return 'NameError-family'\n    r = inner()\n    x = 1\n    return r\nR = outer()\n", "comp-iter-unbound-free"),
+    ("inherited-init", "class A:\n    def __init__(self, x):\n        self.x = x\nclass B(A):\n    pass\ntry:\n    R = B(3).x\nexcept TypeError:\n    R = 'TypeError'\n", "inherited-init"),
+    ("inherited-init-two-levels", "class A:\n    def __init__(self, x):\n        self.x = x\nclass B(A):\n    def m(self):\n        return self.x + 1\nclass C(B):\n    pass\ntry:\n    R = (C(3).m(), B(x=5).x)\nexcept TypeError:\n    R = 'TypeError'\n", "inherited-init"),
+    ("class-body-raises", "def f():\n    y = 5\n    try:\n        class K:\n            z = 1 // 0\n    except ZeroDivisionError:\n        pass\n    return y\nR = f()\n", "class-body-raises"),
+    ("class-body-raises-module", "y = 7\ntry:\n    class K:\n        z = 1 // 0\nexcept ZeroDivisionError:\n    pass\ndef h():\n    return y\nR = [y, h()]\n", "class-body-raises"),
+    ("class-forward-ref", "def chk(o):\n    return isinstance(o, A)\nclass A:\n    pass\na1 = A()\nR = [chk(a1), chk(3)]\n", "class-forward-ref"),
+    ("class-forward-ref-in-function", "def outer():\n    def chk(o):\n        return isinstance(o, A)\n    class A:\n        pass\n    return [chk(A()), chk(3)]\ntry:\n    R = outer()\nexcept NameError:\n    R = 'NameError-family'\n", "class-forward-ref"),
+    ("explicit-base-init", "class A:\n    def __init__(self, x):\n        self.x = x\nclass B(A):\n    def __init__(self, x, y):\n        A.__init__(self, x)\n        self.y = y\ntry:\n    R = (B(3, 4).x, B(3, 4).y)\nexcept TypeError:\n    R = 'TypeError'\n", "explicit-base-init"),
 ]
 
 
@@ -360,6 +371,124 @@ class ScopeGen:
         return "\n".join(lines) + "\n"
 
 
+class ClassGen:
+    """random small class programs along the dimensions the hand-written templates missed: which level of an
+    inheritance chain defines __init__ (none / base / middle / leaf) x how the leaf is instantiated; a class body that
+    raises inside a try of the enclosing scope, followed by reads / calls / assignments there; functions defined BEFORE a
+    class that use the class by name once it exists (module level and inside a function)"""
+
+    def __init__(self, rng):
+        self.rng = rng
+
+    def inherit(self):
+        rng = self.rng
+        depth = rng.choice([2, 2, 3])
+        init_at = rng.choice([None, 0, 0, 0, 1, depth - 1])
+        nparam = rng.randrange(0, 3)
+        ps = ["a", "b"][:nparam]
+        lines, feats = [], ["class-gen", "inherit"]
+        for i in range(depth):
+            base = f"(A{i - 1})" if i else ""
+            lines.append(f"class A{i}{base}:")
+            body = []
+            if init_at == i:
+                sig = ", ".join(["self"] + [p + ("=7" if p == "b" and rng.random() < 0.5 else "") for p in ps])
+                body += [f"    def __init__({sig}):", f"        self.v = T('A{i}.init', ({', '.join(ps)}{',' if len(ps) == 1 else ''}))"]
+            if rng.random() < 0.6:
+                body += [f"    def m{i}(self):", f"        return T('A{i}.m', getattr(self, 'v', None))"]
+            if rng.random() < 0.3:
+                body += [f"    k{i} = T('A{i}.k', {rng.randrange(9)})"]
+            lines += body or ["    pass"]
+        if init_at is not None and init_at < depth - 1:
+            feats.append("inherited-init")
+        leaf = f"A{depth - 1}"
+        for j in range(rng.randrange(1, 4)):
+            nargs = rng.choice([nparam, nparam, max(0, nparam - 1), nparam + 1])
+            args = ", ".join(str(rng.randrange(9)) for _ in range(nargs))
+            cls = rng.choice([leaf, leaf, f"A{rng.randrange(depth)}"])
+            lines += ["try:", f"    o{j} = {cls}({args})", f"    T('o{j}', sorted(vars(o{j}).items()))",
+                      "except TypeError:", f"    T('o{j}', 'TypeError')"]
+        lines.append("R = 0")
+        return "\n".join(lines) + "\n", feats
+
+    def body_raises(self):
+        rng = self.rng
+        in_func = rng.random() < 0.7
+        closure = in_func and rng.random() < 0.5
+        exc, stmt = rng.choice([("ZeroDivisionError", "w = 1 // 0"), ("NameError", "w = undefined_zq"), ("KeyError", "w = {}['k']")])
+        body = [f"y = {rng.randrange(9)}"]
+        if closure:
+            body += ["def g():", "    return T('g', y)"]
+        cb = [f"    z = T('K.z', {rng.randrange(9)})"] if rng.random() < 0.5 else []
+        if rng.random() < 0.4:
+            cb += ["    def m(self):", "        return 1"]
+        body += ["try:", "    class K:"] + ["    " + l for l in cb] + [f"        {stmt}", f"except {exc}:", "    T('caught', y)"]
+        body += [f"y2 = T('after', y + {rng.randrange(3)})"]
+        if closure:
+            body += ["T('g-call', g())"]
+        if rng.random() < 0.5:
+            body += ["class L:", "    q = T('L.q', y2)", "T('L', L.q)"]
+        if in_func:
+            src = ["def f():"] + ["    " + l for l in body] + ["    return T('ret', (y, y2))", "R = f()", "R2 = T('mod', R)"]
+        else:
+            src = body + ["def h():", "    return T('h', y)", "R = [y, y2, h()]"]
+        return "\n".join(src) + "\n", ["class-gen", "class-body-raises"]
+
+    def forward_ref(self):
+        rng = self.rng
+        use = rng.choice(["isinstance(o, A)", "type(o) is A", "A.k", "A().m()", "issubclass(A, A)", "[A][0] is A", "A is not None"])
+        in_func = rng.random() < 0.4
+        body = ["def chk(o):", f"    return T('chk', {use})", "class A:", f"    k = {rng.randrange(9)}", "    def m(self):", "        return T('A.m', self.k)"]
+        if rng.random() < 0.3:
+            body += ["class B(A):", "    pass", "T('b', chk(B()))"]
+        body += ["T('r1', chk(A()))", "T('r2', chk(3))"]
+        if in_func:
+            src = ["def outer():"] + ["    " + l for l in body] + ["    return 0", "try:", "    R = outer()", "except NameError:", "    R = 'NameError-family'"]
+        else:
+            src = body + ["R = 0"]
+        return "\n".join(src) + "\n", ["class-gen", "class-forward-ref"]
+
+    def program(self):
+        return self.rng.choice([self.inherit, self.inherit, self.body_raises, self.forward_ref])()
+
+
+class LambdaGen:
+    """lambda expressions with positional / keyword-only defaults (each default goes through the tracer) that are
+    evaluated several times: in a loop at module level, in a loop inside a function called twice, or by a factory"""
+
+    def __init__(self, rng):
+        self.rng = rng
+
+    def program(self):
+        rng = self.rng
+        npos, nd, nk = rng.randrange(0, 3), rng.randrange(0, 3), rng.randrange(0, 3)
+        if nd + nk == 0:
+            nk = 1
+        ps = [f"a{j}" for j in range(npos)] + [f"d{j}=T('d{j}', i + {j})" for j in range(nd)]
+        if nk:
+            ps.append("*")
+            ps += [f"k{j}=T('k{j}', i * {j + 2})" for j in range(nk)]
+        names = [f"a{j}" for j in range(npos)] + [f"d{j}" for j in range(nd)] + [f"k{j}" for j in range(nk)]
+        lam = f"lambda {', '.join(ps)}: ({', '.join(names)},)"
+        args = ", ".join(str(rng.randrange(9)) for _ in range(npos))
+        over = ""
+        if nk and rng.random() < 0.5:
+            over = (", " if args else "") + f"k{rng.randrange(nk)}=99"
+        place = rng.choice(["module-loop", "function-loop", "factory", "comprehension"])
+        n = rng.randrange(2, 4)
+        if place == "module-loop":
+            src = ["fs = []", f"for i in range({n}):", f"    fs.append({lam})", f"R = [f({args}) for f in fs]", f"R2 = [f({args}{over}) for f in fs]"]
+        elif place == "function-loop":
+            src = ["def mk(n):", "    fs = []", "    for i in range(n):", f"        fs.append({lam})",
+                   f"    return [f({args}{over}) for f in fs]", f"R = mk({n})", "R2 = mk(2)"]
+        elif place == "factory":
+            src = ["def mk(i):", f"    return {lam}", f"g1 = mk({rng.randrange(5)})", f"g2 = mk({rng.randrange(5, 9)})",
+                   f"R = [g1({args}), g2({args}{over}), g1({args})]"]
+        else:
+            src = [f"fs = [{lam} for i in range({n})]", f"R = [f({args}{over}) for f in fs]"]
+        return "\n".join(src) + "\n", ["lambda-gen", place]
+
+
 def pep709_quirk(src):
     """CPython 3.12 inlines comprehensions (PEP 709); in 3.12.1 a name that is ONLY a comprehension variable in a function
     but is also used free by a function or class nested in that function is resolved by the nested scope to the (unbound)
@@ -410,6 +539,24 @@ def scope_cases(rng, tier):
             continue
         seen.add(src)
         out.append(Case({"stream": "scope", "src": src, "features": ["random-nesting"]}, None, tags=["scope", "random-nesting"]))
+    ncls, seen_c = (90 if tier == "quick" else 900), set()
+    for _ in range(ncls * 3):
+        if len(seen_c) >= ncls:
+            break
+        src, feats = ClassGen(rng).program()
+        if src in seen_c:
+            continue
+        seen_c.add(src)
+        out.append(Case({"stream": "scope", "src": src, "features": feats}, None, tags=["scope"] + feats))
+    nlam, seen_l = (40 if tier == "quick" else 400), set()
+    for _ in range(nlam * 3):
+        if len(seen_l) >= nlam:
+            break
+        src, feats = LambdaGen(rng).program()
+        if src in seen_l:
+            continue
+        seen_l.add(src)
+        out.append(Case({"stream": "scope", "src": src, "features": feats}, None, tags=["scope"] + feats))
     return out
 
 
@@ -954,6 +1101,11 @@ def del_declared_global(src):
     return False
 
 
+# signatures of defects for which a `fix:` patch is prepared (notes/fixes_pending/): excused only while the finding is
+# still listed as open in findings.d/C03.json; once it is `fixed` the check reports them again
+PENDING_FIX_SIGNATURES = ("comp-iter-unbound-free", "inherited-init", "class-body-raises", "class-forward-ref")
+
+
 def classify(c, reason):
     if c.payload["stream"] == "scope":
         f = list(c.payload.get("features", []))
@@ -962,7 +1114,7 @@ def classify(c, reason):
         if "random-nesting" in f and del_declared_global(c.payload["src"]):
             f.append("del-missing-global")
         for k in ("native-closure", "comp-var-declared-global", "del-missing-global", "zero-arg-super",
-                  "classmethod-property-descriptor"):   # open findings
+                  "classmethod-property-descriptor", "explicit-base-init") + PENDING_FIX_SIGNATURES:   # open findings
             if k in f:
                 return k
         return "scope:" + "+".join(f)
